@@ -964,15 +964,19 @@ def check_table(eng, drv, res):
 
 
 def shrink(eng, drv, text, failing):
-    """delete words while `failing(text)` stays true"""
+    """delete windows of 1-4 adjacent words while `failing(text)` stays true"""
     ws = text.split(' ')
-    i = 0
-    while i < len(ws) and len(ws) > 1:
-        cand = ws[:i] + ws[i + 1:]
-        if failing(' '.join(cand)):
-            ws = cand
-        else:
-            i += 1
+    progress = True
+    while progress and len(ws) > 1:
+        progress = False
+        for width in (4, 3, 2, 1):
+            i = 0
+            while i + width <= len(ws) and len(ws) > width:
+                cand = ws[:i] + ws[i + width:]
+                if failing(' '.join(cand)):
+                    ws, progress = cand, True
+                else:
+                    i += 1
     return ' '.join(ws)
 
 
